@@ -829,6 +829,45 @@ int _vnacal_new_add_common(vnacal_new_add_arguments_t vnaa)
 	    goto out;
 	}
     }
+
+    /*
+     * If measurement errors were given and the type is T16 or U16,
+     * the S matrix must be complete.  Test this before any parameter
+     * of the standard is registered: a refused standard adds nothing.
+     * A cell is known if it was given, or if it's filled with zero
+     * below (off-diagonal cells between connected ports of a diagonal
+     * S; cells between the connected and the unconnected port group).
+     */
+    if (vnp->vn_m_error_vector != NULL &&
+	    (VL_TYPE(vlp) == VNACAL_T16 || VL_TYPE(vlp) == VNACAL_U16)) {
+	bool s_cell_known[full_s_rows * full_s_columns];
+
+	(void)memset((void *)s_cell_known, 0, sizeof(s_cell_known));
+	for (int s_cell = 0; s_cell < s_cells; ++s_cell) {
+	    s_cell_known[s_cell_map[s_cell]] = true;
+	}
+	for (int r = 0; r < full_s_rows; ++r) {
+	    for (int c = 0; c < full_s_columns; ++c) {
+		const int cell = r * full_s_columns + c;
+
+		if (vnaa.vnaa_s_is_diagonal && r != c &&
+			port_connected[r] && port_connected[c]) {
+		    s_cell_known[cell] = true;
+		}
+		if (s_port_map != NULL &&
+			port_connected[r] != port_connected[c]) {
+		    s_cell_known[cell] = true;
+		}
+	    }
+	}
+	for (int cell = 0; cell < full_s_rows * full_s_columns; ++cell) {
+	    if (!s_cell_known[cell]) {
+		_vnacal_new_err_need_full_s(vnp, function,
+			vnp->vn_measurement_count + 1, cell);
+		goto out;
+	    }
+	}
+    }
     for (int s_cell = 0; s_cell < s_cells; ++s_cell) {
 	if ((full_s_matrix[s_cell_map[s_cell]] =
 		    _vnacal_new_get_parameter(function, vnp,
@@ -897,20 +936,6 @@ int _vnacal_new_add_common(vnacal_new_add_arguments_t vnaa)
 	}
     }
 
-    /*
-     * If measurement errors were given and the type is T16 or U16,
-     * the S matrix must be complete.
-     */
-    if (vnp->vn_m_error_vector != NULL &&
-	    (VL_TYPE(vlp) == VNACAL_T16 || VL_TYPE(vlp) == VNACAL_U16)) {
-	for (int s_cell = 0; s_cell < full_s_rows * full_s_columns; ++s_cell) {
-	    if (full_s_matrix[s_cell] == NULL) {
-		_vnacal_new_err_need_full_s(vnp, function,
-			vnp->vn_measurement_count + 1, s_cell);
-		goto out;
-	    }
-	}
-    }
 
     /*
      * For all calibration types except T16 and U16 that handle leakage
